@@ -5,6 +5,7 @@ import Driver.EngineOps
 import Driver.ShapeOps
 import Driver.ReuseOps
 import Driver.TreeWire
+import Driver.SvgObjOps
 open PicoSVG Drv
 
 def handleF64 (fields : List String) : Option String :=
@@ -17,7 +18,7 @@ def handleF64 (fields : List String) : Option String :=
   | ["f64.round", h, n] => n.toInt?.map (fun k => fHex (F64.pyRound (ofHex h) k))
   | _ => none
 
-def handlers : List (List String → Option String) := [handleF64, handleAffine, handlePath, handleEngine, handleShape, handleReuse, handleDoc]
+def handlers : List (List String → Option String) := [handleF64, handleAffine, handlePath, handleEngine, handleShape, handleReuse, handleDoc, handleSvgObj]
 
 def handle (fields : List String) : String :=
   match handlers.findSome? (fun h => h fields) with
